@@ -319,6 +319,7 @@ func runC05(c *Ctx) {
 	c.rule("R-POP-CONSERVES", 1, "the removal helper writes the tail element into slot i before cutting the tail slot off (except when the heap has one element or i is the tail)")
 	c.rule("R-SET-REPLACES", 2, "Set resizes the buffer to len(vs) and copies vs in on every path (contents are what was put in)")
 	ruleCmpSign(c, "R-CMP-SIGN", c.P.PkgFuncs("heapq"))
+	ruleSizeGuard(c, "heapq")
 	m := buildHeapModel(c)
 	if m == nil {
 		return
@@ -769,6 +770,34 @@ func runC05(c *Ctx) {
 	ruleLenEffect(c, "R-LEN-EFFECT", "heapq", "Queue", m.dataF, map[string]lform{
 		"Add": latom("L0").add(lconst(1), 1), "Pop": latom("L0").add(lconst(1), -1), "Remove": latom("L0").add(lconst(1), -1),
 		"Clear": lconst(0), "Set": latom("len(p1)")})
+	// ---- the operations that replace the order wholesale re-heapify: NewWithData, Set and Reorder each
+	// reach a loop that sifts its loop variable DOWN (a loop that sifts up from the middle does not
+	// establish the heap order)
+	for _, nm := range [][2]string{{"", "NewWithData"}, {"Queue", "Set"}, {"Queue", "Reorder"}} {
+		fn := P.Func("heapq", nm[0], nm[1])
+		if fn == nil {
+			continue
+		}
+		has := false
+		for _, f := range buildCallScope(fn).fns {
+			allInstrs(f, func(in ssa.Instruction) {
+				if call, ok := in.(*ssa.Call); ok && staticCallee(&call.Call) == m.siftDn {
+					switch a := call.Call.Args[1].(type) {
+					case *ssa.Phi:
+						has = true
+					case *ssa.Parameter:
+						// the body of a range-over-func loop: the loop variable is the body's parameter
+						if a.Parent().Parent() != nil {
+							has = true
+						}
+					}
+				}
+			})
+		}
+		c.sawFn(fnName(fn))
+		c.judge(has, "R-HEAPIFY-COVER", fnName(fn)+":re-heapifies", fn.Pos(), "reaches a sift-down loop", "the operation installs new contents or a new order but reaches no loop that sifts its loop variable down: the heap order is not re-established (sifting up from the middle does not build a heap)")
+	}
+	ruleOffsetValid(c, m)
 	// ---- R-SORT-SHORTCUT: a sortedness test that lets Sort return early is made with the caller's order
 	if sortFn := P.Func("heapq", "", "Sort"); sortFn != nil && len(sortFn.Params) >= 1 {
 		var userCmp *ssa.Parameter
@@ -843,6 +872,52 @@ func runC05(c *Ctx) {
 			}
 			idx, ok := m.dataIndex(st.Addr)
 			return ok && (idx == ssa.Value(ip) || sameV(idx, ip))
+		}
+		// after the cut the buffer has hi elements: whatever still uses slot i (an element access, a sift)
+		// must know i < hi — when the removed slot was the tail, slot i no longer exists
+		for k, cut := range cuts {
+			hi := cut.Val.(*ssa.Slice).High
+			nUse := 0
+			allInstrs(fn, func(in ssa.Instruction) {
+				uses := false
+				switch y := in.(type) {
+				case *ssa.IndexAddr:
+					if idx, ok := m.dataIndex(y); ok && (idx == ssa.Value(ip) || sameV(idx, ip)) {
+						uses = true
+					}
+				case *ssa.Call:
+					if cal := staticCallee(&y.Call); (cal == m.siftUp || cal == m.siftDn) && len(y.Call.Args) > 1 && (y.Call.Args[1] == ssa.Value(ip) || sameV(y.Call.Args[1], ip)) {
+						uses = true
+					}
+				}
+				if !uses {
+					return
+				}
+				after, _ := reachesWithout(P, cut, false, func(in2 ssa.Instruction) bool { return in2 == in }, func(ssa.Instruction) bool { return false })
+				if !after || dominatesInstr(in, cut) {
+					return
+				}
+				nUse++
+				inRange := false
+				for _, cm := range cmpsAt(in.Block()) {
+					if (cm.X == ssa.Value(ip) && cm.Y == hi && cm.Op == token.LSS) || (cm.Y == ssa.Value(ip) && cm.X == hi && cm.Op == token.GTR) {
+						inRange = true
+					}
+				}
+				// a sift-up nested under a sift-down call that was itself under the test
+				if call, ok := in.(*ssa.Call); ok && !inRange {
+					for _, cm := range cmpsAt(call.Block()) {
+						if c2, ok := cm.X.(*ssa.Call); ok && staticCallee(&c2.Call) == m.siftDn {
+							for _, cm2 := range cmpsAt(c2.Block()) {
+								if (cm2.X == ssa.Value(ip) && cm2.Y == hi && cm2.Op == token.LSS) || (cm2.Y == ssa.Value(ip) && cm2.X == hi && cm2.Op == token.GTR) {
+									inRange = true
+								}
+							}
+						}
+					}
+				}
+				c.judge(inRange, "R-POP-CONSERVES", fmt.Sprintf("heapq removal helper:slot i used after the cut #%d.%d", k+1, nUse), instrPos(in), "under i < new length", "slot i is read or sifted after the buffer was cut to its new length without knowing i < that length: when the removed slot is the tail, slot i is past the end (index out of range)")
+			})
 		}
 		for k, cut := range cuts {
 			key := fmt.Sprintf("heapq removal helper:tail kept #%d", k+1)
@@ -1032,6 +1107,23 @@ func runC06(c *Ctx) {
 	}
 	P := c.P
 	eff := newEff(P)
+	ruleOffsetValid(c, m) // the offsets reported are the ones Peek and Remove accept
+	// removing by a reported offset must work for every offset reported, the tail included (shared with C05)
+	c.rule("R-POP-CONSERVES", 1, "the removal helper keeps the tail element and touches slot i after the cut only under i < new length (shared with C05)")
+	{
+		sub := newCtx(P, "C05", c.Tier)
+		runC05(sub)
+		for _, o := range sub.Obligs {
+			if o.Rule != "R-POP-CONSERVES" {
+				continue
+			}
+			if o.Verdict == "ok" {
+				c.ok("R-POP-CONSERVES", o.Construct, 0, o.Msg)
+			} else {
+				c.bad("R-POP-CONSERVES", o.Construct, 0, o.Pos+": "+o.Msg)
+			}
+		}
+	}
 	isNotify := func(in ssa.Instruction, k ssa.Value) bool {
 		call, ok := in.(*ssa.Call)
 		if !ok || !isLoadOfField(call.Call.Value, m.moveF) || len(call.Call.Args) != 2 {
@@ -1645,3 +1737,85 @@ func naturalCmpVerdict(P *Prog, v ssa.Value) (ok bool, judged bool, why string) 
 	}
 	return true, true, fnName(f)
 }
+
+// ruleOffsetValid: Remove refuses exactly the offsets Peek refuses (an offset is valid iff 0 <= n < len).
+func ruleOffsetValid(c *Ctx, m *heapModel) {
+	P := c.P
+	c.rule("R-OFFSET-VALID", 1, "Remove and Peek treat the same offsets as out of range")
+		var refusalP func(fn *ssa.Function, p *ssa.Parameter, depth int) (string, token.Pos)
+		refusal := func(fn *ssa.Function) (string, token.Pos) {
+			if fn == nil || len(fn.Params) < 2 {
+				return "", 0
+			}
+			return refusalP(fn, fn.Params[1], 0)
+		}
+		refusalP = func(fn *ssa.Function, p *ssa.Parameter, depth int) (string, token.Pos) {
+			res, pos := "", token.NoPos
+
+			allInstrs(fn, func(in ssa.Instruction) {
+				bo, ok := in.(*ssa.BinOp)
+				if !ok {
+					return
+				}
+				x, y, op := bo.X, bo.Y, bo.Op
+				if y == ssa.Value(p) {
+					x, y = y, x
+					switch op {
+					case token.LSS:
+						op = token.GTR
+					case token.LEQ:
+						op = token.GEQ
+					case token.GTR:
+						op = token.LSS
+					case token.GEQ:
+						op = token.LEQ
+					}
+				}
+				if x != ssa.Value(p) {
+					return
+				}
+				if f, ok := affLenA(y, m, nil); ok && f.a == 1 && f.d == 1 {
+					// canonical: the set of offsets refused, relative to len
+					switch op {
+					case token.GEQ:
+						res, pos = fmt.Sprintf("n >= len%+d", f.b), bo.Pos()
+					case token.GTR:
+						res, pos = fmt.Sprintf("n >= len%+d", f.b+1), bo.Pos()
+					case token.LSS:
+						res, pos = fmt.Sprintf("n >= len%+d (negated)", f.b), bo.Pos()
+					case token.LEQ:
+						res, pos = fmt.Sprintf("n >= len%+d (negated)", f.b+1), bo.Pos()
+					}
+				}
+			})
+			if res == "" && depth < 2 {
+				// the range test may live in a helper the offset is handed to
+				allInstrs(fn, func(in ssa.Instruction) {
+					call, ok := in.(*ssa.Call)
+					if !ok || res != "" {
+						return
+					}
+					cal := staticCallee(&call.Call)
+					if cal == nil || origin(cal).Pkg != fn.Pkg || origin(cal).Blocks == nil {
+						return
+					}
+					for i, a := range call.Call.Args {
+						if a == ssa.Value(p) && i < len(origin(cal).Params) {
+							if r, ps := refusalP(origin(cal), origin(cal).Params[i], depth+1); r != "" {
+								res, pos = r, ps
+							}
+						}
+					}
+				})
+				return res, pos
+			}
+			return strings.Replace(res, "len+0", "len", 1), pos
+		}
+		pk, rm := P.Func("heapq", "Queue", "Peek"), P.Func("heapq", "Queue", "Remove")
+		a, _ := refusal(pk)
+		b, pos := refusal(rm)
+		if a != "" && b != "" {
+			c.sawFn(fnName(rm))
+			c.judge(strings.TrimSuffix(a, " (negated)") == strings.TrimSuffix(b, " (negated)"), "R-OFFSET-VALID", "heapq.(*Queue).Remove:refuses what Peek refuses", pos, "both refuse "+strings.TrimSuffix(b, " (negated)"), fmt.Sprintf("Peek treats offsets with %s as out of range, Remove those with %s: an element Peek shows cannot be removed (or a missing one can)", strings.TrimSuffix(a, " (negated)"), strings.TrimSuffix(b, " (negated)")))
+		}
+	}
